@@ -137,6 +137,12 @@ impl<'a> Serialize for Serializable<'a, TriviaPiece> {
             TriviaPiece::NonBreakingSpaces(n) => {
                 serializer.serialize_newtype_variant("TriviaPiece", 9, "NonBreakingSpaces", n)
             }
+            TriviaPiece::UnterminatedBlockComment(comment) => serializer.serialize_newtype_variant(
+                "TriviaPiece",
+                10,
+                "UnterminatedBlockComment",
+                &self.new_with_same_flags(comment),
+            ),
         }
     }
 }
